@@ -84,3 +84,8 @@ CHECKS['C13'] = dict(
     text='5k (name, value) pairs and 3k declaration blocks per quick run (150k/80k thorough): verdict equal across 4 spellings, 7 origins, round trip, @font-face context and all validation flags; agreement with a hand-written CSS 2.1 reference (valid => valid; invalid => invalid for single-profile properties); unknown names never valid; block/rule/sheet validity = conjunction; validate on/off serialise identically. Exploration.',
     note='Trusted: my CSS 2.1 keyword/type table; prose range restrictions, "+" numbers (F13-1) and system colours (F13-3, pinned by the suite) are outside the asserted region.',
 )
+CHECKS['C06'] = dict(
+    technique='property-based testing (Hypothesis) over (DOM, preference assignment) pairs: oracle = pure function applying the documented effect of every preference to the DOM projection, compared with the projection of the reparsed output; token-level metamorphic relation for layout preferences; defaults-restore differential',
+    text='2.5k (generated DOM, preference assignment) pairs per quick run (150k thorough): singles, pairs, minified preset and random full assignments of the 23 documented preferences; output must parse without logged syntax error, project like the DOM after the documented filters, keep the non-white-space tokens under layout-only assignments and return to the default bytes after useDefaults(); variables and the two special preferences have their own sub-checks. Exploration.',
+    note='Trusted: the effect function (60 lines, from the Preferences docstring), DOM projection; numbers/hashes compared by value; emptiness = no declaration at any depth; indentSpecificities/lineNumbers only for no-exception and defaults-restore.',
+)
